@@ -1,6 +1,6 @@
 """C01 — evaluation is total: no panic, no hang, one result slot per input line."""
 import re
-from tools import common as C
+from tools import common as C, wire
 from tools.gen import lines as L
 
 LEAN_MODULES = ["SCP.C01", "SCP.C04", "SCP.Termination", "SCP.ParserTotal"]
@@ -258,6 +258,17 @@ def run(ctx, model_ok):
             ctx.sample({"lang": lang, "cfg": cfg, "text": t[:120], "outcome": "ok" if cls is None else cls,
                         "slots": len(r.get("lines", []))})
 
+
+    # the model's tokenizers against the implementation's on every line of the hostile streams
+    if model_ok:
+        lt = []
+        for cfg, lang, t in cases[:ctx.n(1500, 40000)]:
+            if lang not in ("en", "tr"):
+                continue
+            sep = [o for o in cfg if o.get("op") in ("cfg", "tz")]
+            for ln in wire.split_lines(t)[:6]:
+                lt.append((sep, lang, ln))
+        wire.lex_tie(ctx, lt)
 
     # execute_session on a re-used Session: every run returns one slot per line of the text set last, also when the SAME
     # text is set and evaluated again (what a front end does after a configuration change)
